@@ -15,6 +15,12 @@ CLAIMED = {
           "deterministic simulation: paired seeded runs differing in one configuration knob"),
  "C09": ("html-stream", "4.6", "at every token emission of every simulated run the reported line is compared with 1 + line breaks in the input consumed so far, measured by the harness-owned queue (no hook); set_current_line forwarding checked against the token's line",
           "deterministic simulation: consumption probe invariant at every emission"),
+ "C11": ("tendril-history", "4.8", "seeded operation histories (30 operation kinds of the safe Tendril API) over a pool of 6 tendrils per format (UTF8, Bytes, ASCII, Latin1, WTF8) x {NonAtomic, Atomic}; after every operation every live tendril equals its Vec<u8> model, checked operations fail exactly when the model says, content stays valid for the format",
+          "deterministic simulation: seeded history search against an executable reference model"),
+ "C12": ("tendril-history-ledger + miri", "4.9", "the same histories run inside an allocation-ledger region (global allocator with live table, red zones, poison + quarantine): double free, free with a different layout, out-of-bounds write, write after free, leak; thorough tier adds the histories and a 3-thread clone/SendTendril scenario under Miri with seeded schedules",
+          "deterministic simulation: seeded histories under an allocation-fault ledger; Miri seeded thread schedules"),
+ "C13": ("bufferqueue-history", "4.10", "seeded histories of every BufferQueue operation over strings split into owned / shared-adjacent buffers, compared return value by return value and buffer by buffer with a VecDeque<String> model",
+          "deterministic simulation: seeded history search against an executable reference model"),
  "C15": ("xml-stream", "4.11", "xml5ever tokenizer + tree builder under simulated delivery: tree of any schedule equals the one-piece tree; exact_errors flip; discard_bom; and any schedule/option set equals the one-piece character-at-a-time run of the pre-normalised input (CR/CRLF->LF, NUL->U+FFFD)",
           "deterministic simulation: seeded schedule search, run-vs-reference-run oracle"),
  "C18": ("html-stream + xml-stream", "4.12", "a simulated collector runs at seeded suspension points, roots = trace_handles + handles held by the embedder, poisons everything not connected to a root; any later sink call on a poisoned node is a violation; trees with and without collections must agree",
@@ -34,9 +40,6 @@ NOT_APPLICABLE = {
 
 PENDING = {
  "C10": "not claimed at this commit: byte-stream world not built yet (planned, DESIGN.md §4.7)",
- "C11": "not claimed at this commit: tendril history world not built yet (planned, DESIGN.md §4.8)",
- "C12": "not claimed at this commit: allocation ledger / Miri thread world not built yet (planned, DESIGN.md §4.9)",
- "C13": "not claimed at this commit: BufferQueue history world not built yet (planned, DESIGN.md §4.10)",
  "C20": "not claimed at this commit: RcDom history world not built yet (planned, DESIGN.md §4.14)",
 }
 
@@ -66,6 +69,8 @@ def main():
             "add_only": True,
         },
         "engines": [
+            {"name": "tendril-history", "path": "/verif/sim/tendril_hist/src/lib.rs", "serves_properties": ["C11", "C12"], "kind_free_text": "seeded operation histories over tendril pools with Vec<u8> models; allocation ledger (global allocator) and Miri front ends"},
+            {"name": "bufferqueue-history", "path": "/verif/sim/simcore/src/bufqueue_world.rs", "serves_properties": ["C13"], "kind_free_text": "seeded BufferQueue histories vs VecDeque<String>"},
             {"name": "xml-stream", "path": "/verif/sim/simcore/src/xml_stream.rs", "serves_properties": ["C04", "C05", "C08", "C15", "C18"], "kind_free_text": "the same event loop driving xml5ever's tokenizer and tree builder"},
             {"name": "html-stream", "path": "/verif/sim/simcore/src/html_stream.rs", "serves_properties": ["C03", "C04", "C05", "C06", "C08", "C09", "C18", "C19"], "kind_free_text": "sequential discrete-event simulator of the HTML push-parser protocol (source, embedder, script, collector, sinks)"},
         ],
